@@ -25,12 +25,21 @@ def model_check(ctx):
         "materials are uniform along the symmetry axis (slab spanning the axis), no sources; initial fields: random reduced fields with the odd on-plane "
         "components zero on the plane, full-domain fields = their mirror extension (re-checked by TLC at step 0)",
         "tolerance 1e-11 of the largest value of the compared arrays",
+        "detector part: spatial Field / Phasor records (all six components, and component subsets given in non-canonical order with mixed parity) on every "
+        "entry outside the light cone (+1 cell); volume-reduced Field / Phasor records over a plane-straddling region outside the light cone, claimed only for "
+        "components sampled half a cell off the plane (co-located detectors: z plane only; x / y planes use raw detectors and claim E normal, H tangential) - "
+        "for samples ON the plane a volume-reduced full-domain record is not a function of the kept half's record (see notes/C33.md)",
     ]
 
 
+# component subsets in NON-canonical order with mixed mirror parity (for every symmetry axis each tuple holds odd and even
+# components): the detectors stack their output in canonical order Ex,Ey,Ez,Hx,Hy,Hz whatever the order given here
+COMPONENT_SETS = [("Hz", "Ey", "Ex"), ("Ey", "Hx", "Ez", "Hy"), ("Hy", "Ex", "Ez"), ("Ez", "Hz", "Ex", "Hx"), ("Hx", "Ez", "Ey", "Hz", "Ex")]
+
+
 def _case(rng, n, ax):
-    half = rng.choice([5, 6])
-    shape = [rng.randint(3, 5) for _ in range(3)]
+    half = 8
+    shape = [rng.randint(3, 4) for _ in range(3)]
     shape[ax] = 2 * half
     bounds = {}
     kind_ax = rng.choice(["pec", "pmc", "pml", "pec"])
@@ -45,10 +54,25 @@ def _case(rng, n, ax):
     hi = [rng.randrange(l + 1, s + 1) for l, s in zip(lo, shape)]
     lo[ax], hi[ax] = 0, shape[ax]
     slab = {"lo": lo, "hi": hi, "eps": rng.choice([2.25, [1.5, 2.5, 3.5], [2.0, 1.2, 2.8]]), "sigma": rng.choice([0.0, 0.0, 200.0])}
-    det = {"kind": "field", "name": "fd", "lo": [0, 0, 0], "hi": list(shape), "exact": True, "switch": {"interval": 2}}
-    T = half - thick - 2
+    T = 3
+    dets = [{"kind": "field", "name": "fd", "lo": [0, 0, 0], "hi": list(shape), "exact": True, "switch": {"interval": 2}}]
+    # component subsets in non-canonical order: spatial Field and Phasor records over the whole volume ...
+    dets.append({"kind": "field", "name": "fdp", "lo": [0, 0, 0], "hi": list(shape), "exact": True, "components": list(rng.choice(COMPONENT_SETS))})
+    dets.append({"kind": "phasor", "name": "php", "lo": [0, 0, 0], "hi": list(shape), "exact": True, "components": list(rng.choice(COMPONENT_SETS)), "wl": 300e-9})
+    # ... and volume-reduced records over a region that straddles the plane symmetrically and stays outside the light cone
+    # of the far boundary for the whole run: cells [half-w, half+w) with half - w - thick > T + 1
+    w = half - (thick + T + 2)
+    rlo, rhi = [0, 0, 0], list(shape)
+    rlo[ax], rhi[ax] = half - w, half + w
+    # A volume-reduced record can be recovered from the kept half only for samples that sit HALF A CELL OFF the plane (a
+    # cell-symmetric region holds the node rows half-w .. half+w-1, which are not symmetric about the node row `half`).
+    # Co-located samples sit at (i, j, k+1/2): off the plane only for a z plane.  For x / y planes the reduced detectors are
+    # therefore raw (exact_interpolation=False) and only their off-plane components are claimed (see notes/C33.md).
+    coloc = ax == 2
+    dets.append({"kind": "field", "name": "fdr", "lo": rlo, "hi": rhi, "exact": coloc, "reduce": True, "components": list(rng.choice(COMPONENT_SETS))})
+    dets.append({"kind": "phasor", "name": "phr", "lo": rlo, "hi": rhi, "exact": coloc, "reduce": True, "components": list(rng.choice(COMPONENT_SETS)), "wl": 300e-9})
     return {"id": f"ax{ax}-{kind_ax}-{n}", "ax": ax, "thick": thick, "T": T, "seed": rng.randrange(10**9),
-            "scene": {"shape": shape, "T": T, "res": 40e-9, "cf": 0.99, "pml": 2, "bounds": bounds, "slabs": [slab], "detectors": [det]}}
+            "scene": {"shape": shape, "T": T, "res": 40e-9, "cf": 0.99, "pml": 2, "bounds": bounds, "slabs": [slab], "detectors": dets}, "roff": half - w}
 
 
 def gen_cases(ctx):
@@ -136,19 +160,47 @@ def observe(case):
         sE, sH = RS.rel_scale(Ef, Er, Eu), RS.rel_scale(Hf, Hr, Hu)
         steps.append({"t": t, "Ef": RS.enc_real(Ef, sE)[0], "Er": RS.enc_real(Er, sE)[0], "Eu": RS.enc_real(Eu, sE)[0],
                       "Hf": RS.enc_real(Hf, sH)[0], "Hr": RS.enc_real(Hr, sH)[0], "Hu": RS.enc_real(Hu, sH)[0]})
-    # co-located detector records: library unfold vs full run
-    fdet = np.asarray(fruns[-1][1].detector_states["fd"]["fields"])
-    udet = np.asarray(fdtdx.unfold_detector_states(rruns[-1][1], ro, rcfg).detector_states["fd"]["fields"])
-    assert fdet.shape == udet.shape, (fdet.shape, udet.shape)
-    dets = []
-    det = [d for d in fo.detectors if d.name == "fd"][0]
-    on_steps = [t for t in range(T) if bool(det._is_on_at_time_step_arr[t])]
-    for k, t in enumerate(on_steps):
-        for blk, name in ((slice(0, 3), "E"), (slice(3, 6), "H")):
-            a, b = fdet[k, blk], udet[k, blk]
-            s = RS.rel_scale(a, b)
-            dets.append({"t": t + 1, "what": name, "N": list(a.shape[1:]), "off": 0, "a": RS.enc_real(a, s)[0], "b": RS.enc_real(b, s)[0]})
-    return {"id": case["id"], "NF": NF, "ax": ax, "thick": thick, "T": T, "tol": 10, "steps": steps, "dets": dets}
+    # co-located detector records: library unfold_detector_states vs full run
+    fstates = fruns[-1][1].detector_states
+    ustates = fdtdx.unfold_detector_states(rruns[-1][1], ro, rcfg).detector_states
+    fdets = {d.name: d for d in fo.detectors}
+    dets, rdets = [], []
+
+    def add_spatial(t, what, a, b):     # a, b: (ncomp, nx, ny, nz), components in stored (canonical) order
+        sc_ = RS.rel_scale(a, b)
+        dets.append({"t": t, "what": what, "N": list(a.shape[1:]), "off": 0, "a": RS.enc_real(a, sc_)[0], "b": RS.enc_real(b, sc_)[0] if a.shape == b.shape else []})
+
+    CANON = ["Ex", "Ey", "Ez", "Hx", "Hy", "Hz"]
+
+    def add_reduced(t, name, part, a, b):     # a, b: flat per-component values of a volume-reduced record (stored = canonical order)
+        a, b = np.ravel(a), np.ravel(b)
+        stored = [c for c in CANON if c in fdets[name].components]
+        sc_ = RS.rel_scale(a, b, np.asarray([refscale]))
+        rdets.append({"t": t, "what": f"{name}(reduce_volume){part} " + "/".join(fdets[name].components), "off": case["roff"],
+                      "coloc": bool(fdets[name].exact_interpolation), "comps": [[c[0], "xyz".index(c[1])] for c in stored],
+                      "a": RS.enc_real(a, sc_)[0], "b": RS.enc_real(b, sc_)[0] if a.shape == b.shape else []})
+
+    refscale = max(float(np.max(np.abs(o))) for o in (np.asarray(fruns[-1][1].fields.E), np.asarray(fruns[-1][1].fields.H)))
+    for name in ("fd", "fdp"):
+        fdet, udet = np.asarray(fstates[name]["fields"]), np.asarray(ustates[name]["fields"])
+        assert fdet.shape == udet.shape, (name, fdet.shape, udet.shape)
+        on_steps = [t for t in range(T) if bool(fdets[name]._is_on_at_time_step_arr[t])]
+        for k, t in enumerate(on_steps):
+            if name == "fd":
+                add_spatial(t + 1, "fd E", fdet[k, 0:3], udet[k, 0:3])
+                add_spatial(t + 1, "fd H", fdet[k, 3:6], udet[k, 3:6])
+            else:
+                add_spatial(t + 1, "fdp " + "/".join(fdets[name].components), fdet[k], udet[k])
+    fph, uph = np.asarray(fstates["php"]["phasor"])[0, 0], np.asarray(ustates["php"]["phasor"])[0, 0]   # (ncomp, nx, ny, nz), complex
+    add_spatial(T, "php re " + "/".join(fdets["php"].components), fph.real, uph.real)
+    add_spatial(T, "php im " + "/".join(fdets["php"].components), fph.imag, uph.imag)
+    fr, ur = np.asarray(fstates["fdr"]["fields"]), np.asarray(ustates["fdr"]["fields"])      # (Ton, ncomp)
+    for k in range(fr.shape[0]):
+        add_reduced(k + 1, "fdr", "", fr[k], ur[k])
+    fp, up = np.asarray(fstates["phr"]["phasor"]), np.asarray(ustates["phr"]["phasor"])
+    add_reduced(T, "phr", " re", fp.real, up.real)
+    add_reduced(T, "phr", " im", fp.imag, up.imag)
+    return {"id": case["id"], "NF": NF, "ax": ax, "thick": thick, "T": T, "tol": 10, "steps": steps, "dets": dets, "rdets": rdets}
 
 
 def classify(rec, verdict):
